@@ -30,10 +30,17 @@ NUM = re.compile(r'(?<![\w.])(\d{1,3})(?![\w.])')
 
 
 def sh(cmd, cwd=None, env=None, timeout=900):
+    import signal
+    p = subprocess.Popen(cmd, cwd=cwd, env=env, shell=True, stdout=subprocess.PIPE, stderr=subprocess.STDOUT, text=True, start_new_session=True)
     try:
-        p = subprocess.run(cmd, cwd=cwd, env=env, shell=True, capture_output=True, text=True, timeout=timeout)
-        return p.returncode, p.stdout + p.stderr
+        out, _ = p.communicate(timeout=timeout)
+        return p.returncode, out
     except subprocess.TimeoutExpired:
+        try:
+            os.killpg(p.pid, signal.SIGKILL)
+        except ProcessLookupError:
+            pass
+        p.wait()
         return 124, 'timeout'
 
 
@@ -142,7 +149,13 @@ def main():
             else:
                 rec['status'] = 'SURVIVED'
                 for cid in ids:
-                    rc, out = sh(f'{SCR}/target/release/vcheck {cid} --tier quick', env=env, timeout=900)
+                    rc, out = sh(f'{SCR}/target/release/vcheck {cid} --tier quick', env=env, timeout=240)
+                    if rc == 124:
+                        # a check that normally takes seconds does not finish: the mutant loops (C07's "loops without bound");
+                        # the checks report that as inconclusive, the sweep records it and moves on
+                        rec['status'] = 'hang'
+                        rec['by'] = cid
+                        break
                     if rc == 1:
                         rec['status'] = 'killed'
                         rec['by'] = cid
